@@ -71,6 +71,11 @@ def make_tensor(case):
     def rnd(sh):
         a = nprs.standard_normal(sh)
         return a + 1j * nprs.standard_normal(sh) if cplx else a
+    if "sexp" in case:
+        # the same tensor up to an overall factor 10**sexp (badly scaled input; the represented object is unchanged)
+        base = dict(case)
+        del base["sexp"]
+        return make_tensor(base) * (10.0 ** case["sexp"])
     if kind == "zero":
         return np.zeros(shape, dtype=complex if cplx else float)
     if kind == "ones":
@@ -78,6 +83,31 @@ def make_tensor(case):
     if kind == "int":
         a = nprs.randint(-2, 3, size=shape).astype(float)
         return a + 1j * nprs.randint(-2, 3, size=shape) if cplx else a
+    if kind == "zeroslice":
+        # a generic tensor with one or two exactly vanishing slices (product states, projected legs)
+        out = rnd(shape)
+        big = [a for a, d in enumerate(shape) if d >= 2]
+        for _ in range(nprs.randint(1, 3)):
+            if big:
+                a = big[nprs.randint(len(big))]
+                sl = [slice(None)] * len(shape)
+                sl[a] = nprs.randint(shape[a])
+                out[tuple(sl)] = 0
+        return out
+    if kind == "sparse":
+        # a few non-vanishing entries (generalised diagonal / embedded Bell-like tensors), equal or generic weights
+        out = np.zeros(shape, dtype=complex if cplx else float)
+        equal = nprs.randint(2) == 0
+        for _ in range(nprs.randint(1, 4)):
+            idx = tuple(nprs.randint(d) for d in shape)
+            out[idx] = 1 / math.sqrt(2) if equal else rnd(())
+        return out
+    if kind == "padded":
+        # a generic block in the leading corner of an otherwise vanishing tensor (zero-padded / freshly enlarged legs)
+        out = np.zeros(shape, dtype=complex if cplx else float)
+        blk = tuple(nprs.randint(1, d + 1) for d in shape)
+        out[tuple(slice(0, b) for b in blk)] = rnd(blk)
+        return out
     if kind in ("lowrank", "degenerate"):
         ql, rl = case["ql"], case["rl"]
         dq = [shape[a] for a in ql]
@@ -177,6 +207,24 @@ def close(a, b, scale=1.0):
     return a.shape == b.shape and (a.size == 0 or float(np.max(np.abs(a - b))) <= TOL * max(1.0, scale))
 
 
+def close_rel(a, b, scale):
+    """entrywise |a-b| <= TOL * scale with NO floor at 1: for inputs whose overall scale is far from 1."""
+    a = np.asarray(a)
+    b = np.asarray(b)
+    return a.shape == b.shape and (a.size == 0 or float(np.max(np.abs(a - b))) <= TOL * scale)
+
+
+def _dec(x):
+    """'inf' / '-inf' (JSON-able spellings) -> float."""
+    return float(x) if isinstance(x, str) else x
+
+
+def lossless_params(case):
+    """keyword arguments of the SVDParameters object of the 'll' (nothing of weight may be discarded) run of a case."""
+    par = case.get("lossless") or {"max_bond_dim": "inf", "rel_tol": 0.0, "total_tol": 0.0}
+    return {k: _dec(v) for k, v in par.items() if k != "default_args"}
+
+
 def exc_str(e):
     return f"{type(e).__name__}: {str(e)[:80]}"
 
@@ -192,8 +240,20 @@ class C11(Prop):
             "run with EVERY layout (quick: one shape each of order 2, 3; thorough: all fixed shapes of order 2..5) and a quarter of the sampled "
             "bipartitions keep the natural leg order; "
             "orders 0..6, dimensions 1..5, all (n+1)! ordered bipartitions for every order <= 4 (quick: one shape at order 4; thorough: three, plus all 720 of one order-5 shape), sampled for orders 5, 6; a malformed "
-            "stream (duplicate / missing / out-of-range legs) that both sides must reject. non-trivial = order >= 2 and size >= 2; "
-            "distinct by case content")
+            "stream (duplicate / missing / out-of-range legs) that both sides must reject. Entry kinds: generic, low rank, exactly degenerate "
+            "spectrum, small integers, constant, zero, vanishing slices, few non-vanishing entries (equal or generic weights), zero-padded "
+            "block. Every case runs the truncated splitting (truncated_tensor_svd and the three contraction modes) three times: truncation "
+            "disabled (-inf tolerances), truncating parameters, and LOSSLESS parameters = any parameter object that by the documented rule "
+            "can discard only vanishing weight (value criterion with rel_tol / total_tol in {exactly 0, -inf, 1e-15, 1e-13 of the tensor's "
+            "scale}, sum criterion relative or absolute with total_tol in {0, 1e-15, 1e-12 resp. 1e-13 of the scale}, renorm on/off, "
+            "max_bond_dim infinite / 10^6 / 100 / exactly the full bond dimension, or the library's default parameter object via the default "
+            "arguments of contr_truncated_svd_splitting): the factors must contract back to the tensor up to the weight the rule allows to "
+            "discard (computed from the parameters and an own SVD). Badly scaled family: the same tensors times 10**sexp, sexp integer in "
+            "-12..12 (half), in -100..100 (quarter), real in -30..30 (quarter) (squares of the entries stay representable), judged with "
+            "purely relative tolerances (1e-9 * largest entry, Gram matrices by the power of the scale they carry), sum criterion in 60% of "
+            "them; exact-zero family: tensors with exactly vanishing singular values with both tolerances exactly 0 / -inf (an exact tie of "
+            "the smallest singular value with the cutoff), at scale 1 and at powers of ten; both families prefer matricisations with >= 2 "
+            "singular values. non-trivial = order >= 2 and size >= 2; distinct by case content")
     clauses = [
         ("F", "row-major flatten/unflatten are inverse on the index box of any shape; the lexicographic box enumeration maps onto "
               "0..size-1 (C11_flatten_unflatten, C11_unflatten_flatten, C11_flatten_bijection)"),
@@ -212,7 +272,9 @@ class C11(Prop):
         ("O", "orthonormal kernel factors => Q, U isometries over the kept legs, Vh over the trailing legs; KEEP: Gram = diag(1_k, 0) "
               "(C11_qr_isometry, C11_svd_isometry)"),
         ("V", "kernel contracts themselves (LAPACK QR/SVD: product, orthonormality, s >= 0 descending, shapes per numpy mode) and the float "
-              "truncation rule: validated numerically on every case against an independent reference (tolerance 1e-9 * max(1,|t|))"),
+              "truncation rule: validated numerically on every case against an independent reference (tolerance 1e-9 * max(1,|t|); 1e-9 * |t| for "
+              "the badly scaled family); lossless truncation parameters (tolerances 0 / -inf / defaults / tiny, either criterion, any scale "
+              "1e-100..1e100) reproduce the tensor in all contraction modes"),
     ]
     trusted_base = [
         "kernel contracts (hypotheses of the O theorems, validated numerically each run): np.linalg.qr returns (Q,R) with QR=A, Q^H Q=1, shapes "
@@ -226,16 +288,54 @@ class C11(Prop):
                    "KEEP with an empty second side is outside the property's quantifier (the code raises TypeError; the model returns None)"]
 
     # ---------------------------------------------------------------------------------
-    def _mk(self, rng, shape, ql, rl, content=None, layout=None):
+    CONTENTS = ["normal", "normal", "normal", "lowrank", "lowrank", "int", "zero", "ones", "degenerate", "degenerate",
+                "zeroslice", "zeroslice", "sparse", "padded"]
+
+    @staticmethod
+    def _lossless(rng, shape, ql, rl, sexp, bias=None):
+        """Parameters of the 'll' run: by the documented rule they allow only (numerically) vanishing weight to be discarded --
+        tolerances exactly 0, -inf, the defaults, or tiny relative to the scale of the tensor; bond cap infinite, huge or exactly
+        the full bond dimension; value criterion or sum criterion (relative / absolute), with or without renormalisation."""
+        k = max(1, min(prod([shape[a] for a in ql if a < len(shape)]), prod([shape[a] for a in rl if a < len(shape)])))
+        unit = 1.0 if sexp is None else 10.0 ** sexp
+        if sexp is None and k <= 100 and rng.random() < 0.12:
+            # the library's own default parameter object / default arguments
+            return {"default_args": True}
+        par = {"max_bond_dim": rng.choice(["inf", "inf", 10 ** 6, 100 if k <= 100 else "inf", k]),
+               "renorm": rng.random() < 0.25}
+        if bias == "zero":
+            # both tolerances switched off exactly: only singular values that are exactly 0 (or nothing) may go
+            par["sum_trunc"] = False
+            par["sum_renorm"] = rng.random() < 0.5
+            par["rel_tol"], par["total_tol"] = rng.choice([(0.0, 0.0), (0.0, 0.0), (0.0, "-inf"), ("-inf", 0.0)])
+        elif rng.random() < (0.6 if bias == "sum" else 0.4):
+            par["sum_trunc"] = True
+            par["sum_renorm"] = rng.random() < 0.6
+            par["rel_tol"] = rng.choice([0.0, 1e-15, "-inf"])       # not used by the sum criterion
+            par["total_tol"] = rng.choice([0.0, 1e-15, 1e-12]) if par["sum_renorm"] else rng.choice([0.0, 1e-15, 1e-13]) * unit
+        else:
+            par["sum_trunc"] = False
+            par["sum_renorm"] = rng.random() < 0.5                   # not used by the value criterion
+            par["rel_tol"] = rng.choice([0.0, 0.0, 1e-15, 1e-13, "-inf"])
+            tot = rng.choice([0.0, 0.0, "-inf", 1e-15, 1e-13])
+            par["total_tol"] = tot if isinstance(tot, str) else tot * unit
+        return par
+
+    def _mk(self, rng, shape, ql, rl, content=None, layout=None, sexp=None, bias=None):
         n = len(shape)
         if content is None:
-            content = rng.choice(["normal", "normal", "normal", "lowrank", "lowrank", "int", "zero", "ones", "degenerate", "degenerate"])
-        return {"kind": "split", "shape": list(shape), "ql": list(ql), "rl": list(rl),
+            content = rng.choice(self.CONTENTS)
+        unit = 1.0 if sexp is None else 10.0 ** sexp
+        case = {"kind": "split", "shape": list(shape), "ql": list(ql), "rl": list(rl),
                 "content": content, "cplx": rng.random() < 0.6, "seed": rng.randrange(10 ** 6),
                 "as_list": rng.random() < 0.4,
                 "layout": layout if layout is not None else rng.choice(["C"] * 5 + LAYOUTS),
                 "trunc": {"max_bond_dim": rng.choice([1, 2, 3, 100]), "rel_tol": rng.choice([1e-12, 0.05, 0.3]),
-                          "total_tol": rng.choice([1e-12, 0.2, 1.0])}}
+                          "total_tol": rng.choice([1e-12, 0.2, 1.0]) * unit},
+                "lossless": self._lossless(rng, shape, ql, rl, sexp, bias)}
+        if sexp is not None:
+            case["sexp"] = sexp
+        return case
 
     @staticmethod
     def _all_bipartitions(n):
@@ -285,6 +385,31 @@ class C11(Prop):
                 sh[rng.randrange(n)] = 1
             ql, rl = self._rand_bip(rng, n)
             cases.append(self._mk(rng, sh, ql, rl))
+        # numerical robustness: the same kinds of tensors multiplied by 10**sexp, sexp spread over many orders of magnitude
+        # (tiny- and huge-norm inputs; squares of the entries stay representable), all tolerances of the oracle relative
+        def robust_shape():
+            # mostly matricisations with at least two singular values (a wrong bond dimension then shows in the product)
+            for attempt in range(6):
+                n = rng.choice([1, 2, 2, 3, 3, 3, 4, 4])
+                sh = [rng.choice([1, 2, 3, 4, 5]) for _ in range(n)]
+                while prod(sh) > 400:
+                    sh[rng.randrange(n)] = 1
+                ql, rl = self._rand_bip(rng, n)
+                if min(prod([sh[a] for a in ql]), prod([sh[a] for a in rl])) >= 2 or (attempt == 0 and rng.random() < 0.15):
+                    break
+            return sh, ql, rl
+        for _ in range(ctx.scale(50, 1500) * budget_scale):
+            sh, ql, rl = robust_shape()
+            sexp = rng.choice([rng.randint(-12, 12), rng.randint(-12, 12), rng.randint(-100, 100), round(rng.uniform(-30, 30), 3)])
+            cases.append(self._mk(rng, sh, ql, rl, sexp=sexp, bias="sum"))
+        # exact zeros and exact ties with the cutoff: tensors with exactly vanishing singular values (vanishing slices, few
+        # non-vanishing entries, zero-padded blocks, small integers, constant) with both tolerances exactly 0 (or -inf), at
+        # scale 1 and at a power of ten
+        for _ in range(ctx.scale(40, 1200) * budget_scale):
+            sh, ql, rl = robust_shape()
+            sexp = rng.choice([None, None, rng.randint(-12, 12), rng.randint(-100, 100)])
+            cases.append(self._mk(rng, sh, ql, rl, content=rng.choice(["zeroslice", "zeroslice", "sparse", "padded", "padded", "int", "ones"]),
+                                  sexp=sexp, bias="zero"))
         # malformed leg lists: both sides must reject
         for _ in range(ctx.scale(20, 120) * budget_scale):
             n = rng.choice([1, 2, 3, 4])
@@ -337,6 +462,21 @@ class C11(Prop):
             c["layout:" + x.get("layout", "C")] += 1
             if x["ql"] + x["rl"] == sorted(x["ql"] + x["rl"]) and len(sh) >= 2:
                 c["legs_natural_order:" + ("row_major" if x.get("layout", "C") == "C" else "other_layout")] += 1
+            if "sexp" in x:
+                e = x["sexp"]
+                c["scale:" + ("1e-100..1e-12" if e < -12 else "1e-12..1e-4" if e < -4 else "1e-4..1e4" if e <= 4
+                              else "1e4..1e12" if e <= 12 else "1e12..1e100")] += 1
+            ll = x.get("lossless") or {}
+            if ll.get("default_args"):
+                c["lossless:default_arguments"] += 1
+            elif ll:
+                c["lossless:" + ("sum_criterion" if ll.get("sum_trunc") else "value_criterion")] += 1
+                if not ll.get("sum_trunc") and _dec(ll["rel_tol"]) <= 0 and _dec(ll["total_tol"]) <= 0:
+                    c["lossless:cutoff_exactly_0" if 0 in (ll["rel_tol"], ll["total_tol"]) else "lossless:cutoff_-inf"] += 1
+                if ll.get("renorm"):
+                    c["lossless:renorm"] += 1
+                if isinstance(ll["max_bond_dim"], int) and ll["max_bond_dim"] <= 400:
+                    c["lossless:finite_bond_cap_le_400"] += 1
         return dict(c)
 
     # ---------------------------------------------------------------------------------
@@ -405,8 +545,12 @@ class C11(Prop):
         # -- truncated SVD and contraction modes, truncation disabled / enabled
         ob["tsvd"] = {}
         ob["contr"] = {}
-        for tag in ("nt", "tr"):
-            if tag == "nt":
+        dflt = bool((case.get("lossless") or {}).get("default_args"))
+        for tag in ("nt", "tr", "ll"):
+            if tag == "ll":
+                # nothing of weight may be discarded: tolerances 0 / -inf / defaults / tiny relative to the tensor, cap >= full bond
+                par = ts.SVDParameters(**lossless_params(case))
+            elif tag == "nt":
                 # every other case reuses ONE parameter object with a finite integer bound for a small splitting first
                 # (as TEBD/TDVP and the default arguments do): a splitting that rewrites its parameters shows up
                 if sum(case["shape"]) % 2:
@@ -427,7 +571,14 @@ class C11(Prop):
                 ob["tsvd"][tag] = {"exc": exc_str(e)}
             for cm in CMODES:
                 try:
-                    a, b = ts.contr_truncated_svd_splitting(t, ql, rl, contr_mode=ts.ContractionMode[cm], svd_params=par)
+                    if tag == "ll" and dflt:
+                        # the default arguments of the public entry point (shared default parameter object, default mode VCONTR)
+                        if cm == "VCONTR":
+                            a, b = ts.contr_truncated_svd_splitting(t, ql, rl)
+                        else:
+                            a, b = ts.contr_truncated_svd_splitting(t, ql, rl, ts.ContractionMode[cm])
+                    else:
+                        a, b = ts.contr_truncated_svd_splitting(t, ql, rl, contr_mode=ts.ContractionMode[cm], svd_params=par)
                     ob["contr"][tag + cm] = {"shapes": [list(a.shape), list(b.shape)], "A": a, "B": b}
                 except Exception as e:  # noqa
                     ob["contr"][tag + cm] = {"exc": exc_str(e)}
@@ -450,6 +601,16 @@ class C11(Prop):
             return rec["shapes"][1][0]
         return 1
 
+    def _pvals(self, ob):
+        if "exception" in ob:
+            return [1]
+        out = []
+        for tag in ("nt", "tr", "ll"):
+            p = self._plen(ob, tag)
+            if p not in out:
+                out.append(p)
+        return out
+
     def model(self, ctx, cases, obs):
         # NB: lib.coq_eval reads a shard's stdout only after the process has exited, so a shard must print less
         # than one pipe buffer (64 KiB): entries are compared inside Coq (cmp_enc) and shards are kept small.
@@ -459,14 +620,14 @@ class C11(Prop):
             NL = lambda xs: "(" + coq_list(xs, str) + "%N)"  # noqa
             a = f"{L(c['shape'])} {L(c['ql'])} {L(c['rl'])}"
             bad = "exception" in ob
-            pn = "1%nat" if bad else coq_nat(self._plen(ob, "nt"))
-            pt = "1%nat" if bad else coq_nat(self._plen(ob, "tr"))
+            # the model is evaluated once per DISTINCT number of kept singular values of the three runs (nt, tr, ll)
+            ps = [coq_nat(x) for x in self._pvals(ob)]
             em = [] if bad or ob["mat"] is None else ob["mat"][1]
             et = [] if bad or ob["tr"] is None else ob["tr"][1]
             qr = "[" + "; ".join(f"qr_shapes {m} {a}" for m in MODES) + "]"
             sv = "[" + "; ".join(f"svd_shapes {m} {a}" for m in MODES) + "]"
-            tr = f"[trunc_shapes {pn} {a}; trunc_shapes {pt} {a}]"
-            co = "[" + "; ".join(f"contr_shapes {cm} {p} {a}" for p in (pn, pt) for cm in CMODES) + "]"
+            tr = "[" + "; ".join(f"trunc_shapes {p} {a}" for p in ps) + "]"
+            co = "[" + "; ".join(f"contr_shapes {cm} {p} {a}" for p in ps for cm in CMODES) + "]"
             exprs.append(f"(cmp_enc (matricize_enc {a}) {NL(em)}, cmp_enc (transpose_enc {a}) {NL(et)}, {qr}, {sv}, {tr}, {co})")
         return coq_eval(ctx, "From Coq Require Import NArith. " + IMPORTS, exprs, shard=40, scope="nat_scope")
 
@@ -519,7 +680,9 @@ class C11(Prop):
                     return f"{nm} {md}: kernel not reached on the index-encoding tensor"
                 if not rc["kin"][2] or rc["kin"][:2] != mmat:
                     return f"{nm} {md}: matrix handed to np.linalg.{nm} differs from the (model-checked) matricisation"
-        for j, tag in enumerate(("nt", "tr")):
+        pvals = self._pvals(ob)
+        for tag in ("nt", "tr", "ll"):
+            j = pvals.index(self._plen(ob, tag))
             mt = self._opt_pair(trs[j])
             rec = ob["tsvd"][tag]
             if (mt is None) != ("exc" in rec):
@@ -562,6 +725,10 @@ class C11(Prop):
         m, nn = prod(dq), prod(dr)
         k = min(m, nn)
         scale = float(np.max(np.abs(t))) if t.size else 1.0
+        # tolerances are TOL * max(1, scale); for the badly scaled family (an overall factor 10**sexp) purely relative: TOL * scale
+        rel = "sexp" in case
+        cl = close_rel if rel else close
+        floor = (lambda x: x) if rel else (lambda x: max(1.0, x))
         expected = loop_transpose(t, ql + rl)
         # documented matricisation: rows = kept legs in order, columns = other legs in order
         if ob["mat"] is None or ob["tr"] is None:
@@ -583,7 +750,7 @@ class C11(Prop):
                 bond = {"FULL": m, "REDUCED": k, "KEEP": nn}[md]
                 if list(q.shape) != dq + [bond] or list(r.shape) != [bond] + dr:
                     return f"QR {md}: shapes {list(q.shape)}, {list(r.shape)}; expected {dq + [bond]}, {[bond] + dr}"
-                if not close(np.tensordot(q, r, axes=(-1, 0)), expected, scale):
+                if not cl(np.tensordot(q, r, axes=(-1, 0)), expected, scale):
                     return f"QR {md}: Q.R does not reproduce the tensor with legs q_legs ++ r_legs"
                 g = gram_last(q)
                 if md == "KEEP":
@@ -602,9 +769,9 @@ class C11(Prop):
             ku, kv = (k, k) if md == "REDUCED" else (m, nn)
             if list(u.shape) != dq + [ku] or list(vh.shape) != [kv] + dr or list(s.shape) != [k]:
                 return f"SVD {md}: shapes {list(u.shape)}, {list(s.shape)}, {list(vh.shape)}; expected {dq + [ku]}, {[k]}, {[kv] + dr}"
-            if np.iscomplexobj(s) or np.any(s < 0) or np.any(np.diff(s) > 1e-12 * max(1.0, scale)):
+            if np.iscomplexobj(s) or np.any(s < 0) or np.any(np.diff(s) > 1e-12 * floor(scale)):
                 return f"SVD {md}: singular values not real, non-negative and descending: {s.tolist()}"
-            if not close(np.tensordot(u[..., :k] * s, vh[:k], axes=(-1, 0)), expected, scale):
+            if not cl(np.tensordot(u[..., :k] * s, vh[:k], axes=(-1, 0)), expected, scale):
                 return f"SVD {md}: U[..., :p] S Vh[:p] does not reproduce the tensor with legs u_legs ++ v_legs"
             if not close(gram_last(u), np.eye(ku)):
                 return f"SVD {md}: U is not an isometry"
@@ -614,7 +781,7 @@ class C11(Prop):
         amat = expected.reshape(m, nn)
         sref = np.linalg.svd(amat, compute_uv=False)
         uref, _, vref = np.linalg.svd(amat, full_matrices=False)
-        for tag in ("nt", "tr"):
+        for tag in ("nt", "tr", "ll"):
             rec = ob["tsvd"][tag]
             if "exc" in rec:
                 return f"truncated SVD ({tag}) raised {rec['exc']}"
@@ -622,9 +789,39 @@ class C11(Prop):
             p = len(s)
             if not (1 <= p <= k) or list(u.shape) != dq + [p] or list(vh.shape) != [p] + dr:
                 return f"truncated SVD ({tag}): shapes {list(u.shape)}, {list(np.shape(s))}, {list(vh.shape)} with k={k}"
-            if not close(s, sref[:p], scale):
+            if tag == "ll":
+                # Parameters that, by the documented rule, discard at most the weight `allowed` (computed here from the
+                # parameters and an own SVD; it is tiny or 0 by construction of the family): the factors must contract back
+                # to the tensor up to that weight, in every contraction mode.
+                par = dict(max_bond_dim=100, rel_tol=1e-15, total_tol=1e-15, renorm=False, sum_trunc=False, sum_renorm=True)
+                par.update(lossless_params(case))
+                fro = float(np.linalg.norm(sref))
+                if par["sum_trunc"]:
+                    d2 = fro if math.isinf(par["total_tol"]) else par["total_tol"] * (fro if par["sum_renorm"] else 1.0)
+                else:
+                    cands = [x for x in (par["rel_tol"] * sref[0], par["total_tol"]) if x == x]
+                    cut = max(cands) if cands else float("-inf")
+                    d2 = 0.0 if cut == float("-inf") else float(np.linalg.norm(sref[sref <= cut * (1 + 1e-6) + 1e-13 * sref[0]]))
+                cap = par["max_bond_dim"]
+                if cap < k:
+                    d2 = math.hypot(d2, float(np.linalg.norm(sref[int(cap):])))
+                allowed = 1.01 * d2 * (1 + math.sqrt(k)) if par["renorm"] else 1.01 * d2
+                if p > cap:
+                    return f"truncated SVD (ll): {p} singular values kept, max_bond_dim is {cap}"
+                if float(np.max(np.abs(s - sref[:p]))) > TOL * floor(scale) + allowed:
+                    return f"truncated SVD (ll) {lossless_params(case)}: kept values are not the {p} largest singular values"
+                prod_t = np.tensordot(u * s, vh, axes=(-1, 0))
+                err = float(np.max(np.abs(prod_t - expected))) if expected.size else 0.0
+                if not err <= TOL * floor(scale) + allowed:
+                    return (f"truncated splitting with parameters {lossless_params(case) or 'SVDParameters()'} that allow to discard at most "
+                            f"the weight {allowed:.3g}: {p} of {k} singular values kept (s={sref.tolist()}), U S Vh differs from the "
+                            f"tensor by {err:.3g} (largest entry {scale:.3g})")
+                if not close(gram_last(u), np.eye(p)) or not close(gram_first(vh), np.eye(p)):
+                    return "truncated SVD (ll): truncated U / Vh are not isometries"
+                target = "done"
+            elif not cl(s, sref[:p], scale):
                 return f"truncated SVD ({tag}): kept values are not the {p} largest singular values"
-            if tag == "nt":
+            elif tag == "nt":
                 if sref[0] > 0 and p != k:
                     return f"truncation disabled but {p} of {k} singular values kept"
                 target = expected
@@ -637,18 +834,20 @@ class C11(Prop):
                         return f"truncation {par}: kept {p} singular values, documented rule gives {want} (s={sref.tolist()})"
                 target = None
             prod_t = np.tensordot(u * s, vh, axes=(-1, 0))
-            if target is not None:
-                if not close(prod_t, target, scale):
+            if tag == "ll":
+                pass
+            elif target is not None:
+                if not cl(prod_t, target, scale):
                     return f"truncated SVD ({tag}): U S Vh does not reproduce the tensor"
             else:
                 # Eckart-Young: a product of rank <= p with error sqrt(sum_{l>=p} s_l^2) is an optimal truncation
                 err = float(np.linalg.norm((prod_t - expected).ravel()))
                 opt = float(np.sqrt(np.sum(sref[p:] ** 2)))
-                if abs(err - opt) > 1e-8 * max(1.0, scale * math.sqrt(max(1, t.size))):
+                if abs(err - opt) > 1e-8 * floor(scale * math.sqrt(max(1, t.size))):
                     return f"truncated SVD (tr): error {err} of the truncated product differs from the optimal {opt} for {p} values"
-                if p < k and sref[p - 1] - sref[p] > 1e-6 * max(1.0, scale):
+                if p < k and sref[p - 1] - sref[p] > 1e-6 * floor(scale):
                     best = ((uref[:, :p] * sref[:p]) @ vref[:p]).reshape(expected.shape)
-                    if not close(prod_t, best, 10 * scale):
+                    if not cl(prod_t, best, 10 * scale):
                         return "truncated SVD (tr): product is not the leading-p truncation"
                 if not close(gram_last(u), np.eye(p)) or not close(gram_first(vh), np.eye(p)):
                     return "truncated SVD (tr): truncated U / Vh are not isometries"
@@ -659,12 +858,20 @@ class C11(Prop):
                 a, b = rc["A"], rc["B"]
                 if list(a.shape) != dq + [p] or list(b.shape) != [p] + dr:
                     return f"contr {cm} ({tag}): shapes {list(a.shape)}, {list(b.shape)}; expected {dq + [p]}, {[p] + dr}"
-                if not close(np.tensordot(a, b, axes=(-1, 0)), prod_t, scale):
+                if not cl(np.tensordot(a, b, axes=(-1, 0)), prod_t, scale):
                     return f"contr {cm} ({tag}): the two factors do not contract to the (truncated) product U S Vh"
                 ga, gb = gram_last(a), gram_first(b)
                 sa = {"UCONTR": np.diag(s ** 2), "VCONTR": np.eye(p), "EQUAL": np.diag(s)}[cm]
                 sb = {"UCONTR": np.eye(p), "VCONTR": np.diag(s ** 2), "EQUAL": np.diag(s)}[cm]
-                if not close(ga, sa, scale * scale * max(1, t.size)) or not close(gb, sb, scale * scale * max(1, t.size)):
+                if rel:
+                    # the Gram matrix of the factor that carries s^2 / s / nothing scales as scale^2 / scale / 1
+                    s1 = scale * math.sqrt(max(1, t.size))
+                    wa = {"UCONTR": s1 * s1, "VCONTR": 1.0, "EQUAL": s1}[cm]
+                    wb = {"UCONTR": 1.0, "VCONTR": s1 * s1, "EQUAL": s1}[cm]
+                    okg = close_rel(ga, sa, wa) and close_rel(gb, sb, wb)
+                else:
+                    okg = close(ga, sa, scale * scale * max(1, t.size)) and close(gb, sb, scale * scale * max(1, t.size))
+                if not okg:
                     return f"contr {cm} ({tag}): singular values are not contracted into the documented factor"
         return None
 
